@@ -185,6 +185,56 @@ def streams(ctx) -> List[Stream]:
                              f'{cname}', budget)
     out.append(s.run())
 
+    # --- dense syndromes on larger tori (sides >= 6): long chains of cluster merges A -> B -> C, deep
+    #     parent chains for find_root / _update_parents, several peeling trees sharing the Support state
+    s = Stream('uf-internals-dense-large-tori')
+    budget = Budget(0)
+    big = [(7, 7), (6, 9), (8, 8), (9, 7)] + ([(10, 10), (12, 8), (7, 11)] if thorough else [])
+    for size in big:
+        code = make('Toric2DCode', size)
+        for sec, H in sectors(code):
+            hname = f'D{"x".join(map(str, size))}{sec}'
+            s.add(f'set {hname} {stack(H.tolist())}', 'ok', nontrivial=False)
+            n = H.shape[1]
+            for p in (0.12, 0.16, 0.2):
+                for rep in range(5 if thorough else 1):
+                    e = (rng.random(n) < p).astype('uint8')
+                    syn = (H @ e) % 2
+                    add_case(s, hname, H, syn, {'code': 'Toric2DCode', 'size': list(size), 'sector': sec,
+                                                'error': [int(q) for q in np.nonzero(e)[0]]},
+                             f'{size[0]}x{size[1]}:p={p}', budget)
+    out.append(s.run())
+
+    # --- several separate clusters: errors of weight 2-4 on pairwise non-adjacent qubits of medium tori
+    #     (each qubit creates its own cluster; several Peeling_Tree objects per decode)
+    s = Stream('uf-internals-separate-clusters')
+    budget = Budget(0)
+    for size in [(5, 5), (4, 4), (5, 4), (6, 5)]:
+        code = make('Toric2DCode', size)
+        for sec, H in sectors(code):
+            hname = f'S{"x".join(map(str, size))}{sec}'
+            s.add(f'set {hname} {stack(H.tolist())}', 'ok', nontrivial=False)
+            n = H.shape[1]
+            A = (H.T.astype(int) @ H.astype(int)) > 0          # qubits sharing a stabilizer
+            seen = set()
+            want = (400 if size == (5, 5) else 60) if thorough else (24 if size == (5, 5) else 6)
+            tries = 0
+            while len(seen) < want and tries < 50 * want:
+                tries += 1
+                w = int(rng.integers(2, 5))
+                qs = sorted(int(q) for q in rng.choice(n, w, replace=False))
+                if any(A[a, b] for i, a in enumerate(qs) for b in qs[i + 1:]):
+                    continue
+                if tuple(qs) in seen:
+                    continue
+                seen.add(tuple(qs))
+                e = np.zeros(n, dtype='uint8')
+                e[qs] = 1
+                syn = (H @ e) % 2
+                add_case(s, hname, H, syn, {'code': 'Toric2DCode', 'size': list(size), 'sector': sec,
+                                            'error': qs}, f'{size[0]}x{size[1]}:weight{w}', budget)
+    out.append(s.run())
+
     # --- which lattices satisfy the hypotheses of the theorems (closedGraph / graphLike), evaluated by the
     #     compiled model and independently here; the expected class per family is part of the claim:
     #     Toric2DCode with both sides >= 3 is a closed graph in both sectors (UnionFindDecoder.allowed_codes),
